@@ -336,6 +336,15 @@ MOTIFS['M32f_oneof_in_rec_same_candidate_inside_again'] = spec([
     node(3, [('a', inp(1))]), node(4, [('a', one(2, 3))]),
     node(5, [('a', inp(4))], is_rec=True, recur_k=2), node(6, [('a', rec(1, 5, 3))])])
 
+# a successful run that ends while a node is still in flight: the first candidate fails in one dependency while a sibling
+# dependency of the same candidate is in the middle of its body; the fallback candidate succeeds
+MOTIFS['M35_run_succeeds_with_a_node_in_flight'] = spec([
+    node(0), node(1, fails=FAIL), node(2), node(3, [('a', inp(1)), ('b', inp(2))]), node(4),
+    node(5, [('a', one(3, 4))])])
+MOTIFS['M35b_run_succeeds_with_a_retrying_node_in_flight'] = spec([
+    node(0), node(1, fails=FAIL), node(2, attempts=3, delay=5, fails=[[0, 1, 'E1'], [0, 2, 'E1']]),
+    node(3, [('a', inp(1)), ('b', inp(2))]), node(4), node(5, [('a', one(3, 4))])])
+
 
 def _with_cb(sp, cb):
     sp = dict(sp)
